@@ -362,6 +362,9 @@ func (c *lossState) discardKeys(now time.Time, log *slog.Logger, space numberSpa
 	c.spaces[space].discard()
 	c.spaces[space].maxAcked = -1
 	c.spaces[space].lastAckEliciting = -1
+	// Discarding keys indicates forward progress: reset the PTO backoff.
+	// https://www.rfc-editor.org/rfc/rfc9002.html#appendix-A.11
+	c.ptoBackoffCount = 0
 	c.scheduleTimer(now)
 	if logEnabled(log, QLogLevelPacket) {
 		logBytesInFlight(log, c.cc.bytesInFlight)
